@@ -14,5 +14,7 @@ CONSTANTS
   Step = 50
   RbfDepth = 4
   TightCap = FALSE
+  PeerDepth = 4
+  PeerWide = FALSE
 INVARIANTS NeverAbort
 CHECK_DEADLOCK FALSE
